@@ -297,6 +297,14 @@ theorem stepExit_G1 {r : Fin n} {s s' : St n} (h : G1 r s) (v : Fin n) (hs : ste
     · intro w hw; exact h.pcKind w (halive w hw).2
   · cases hs
 
+theorem stepTend_G1 {r : Fin n} {s s' : St n} (h : G1 r s) (v : Fin n) (hs : stepTend r s v = some s') : G1 r s' := by
+  unfold stepTend at hs
+  split at hs
+  · rename_i hg
+    cases hs
+    exact h.frame_pc v .gone rfl rfl rfl rfl rfl rfl rfl rfl hg.2.2.2.1 (by rw [hg.2.2.1]; rfl) (fun e => absurd e hg.2.1)
+  · cases hs
+
 theorem init_G1 (r : Fin n) : G1 r (init r) := by
   have hch : ∀ a b, isChild (init r) a b = false := by intro a b; simp [isChild, init]
   have hdebt : ∀ a b, debt (init r) a b = 0 := by
@@ -331,6 +339,7 @@ theorem step_G1 {r : Fin n} {s s' : St n} (h : G1 r s) (e : Ev n) (hs : step r s
   | searchResult v => exact stepSearchResult_G1 h v hs
   | searchLeave v m => exact stepSearchLeave_G1 h v m hs
   | spawn v p => exact stepSpawn_G1 h v p hs
+  | tend v => exact stepTend_G1 h v hs
   | exit v => exact stepExit_G1 h v hs
   | eRdPre x => exact stepERdPre_G1 h x hs
   | eRd x b => exact stepERd_G1 h x b hs
